@@ -103,7 +103,7 @@ pub fn in_child(f: impl FnOnce() -> Vec<u8>, timeout_ms: i32) -> ChildOut {
 // ---------------------------------------------------------------------------------------------
 // recording a workload
 
-pub const KEYS: [u8; 3] = [0, 1, NEVER_KEY];
+pub const KEYS: [u8; 4] = [0, 1, NEVER_KEY, 6];
 
 #[derive(Clone, Debug)]
 pub struct Recorded {
@@ -646,7 +646,7 @@ fn plan_words(p: &Plan) -> Vec<Vec<Op>> {
     let mut words = words_upto(&p.alphabet, p.depth);
     if p.depth >= 2 {
         let mut wide = p.alphabet.clone();
-        let shapes = [Op::Set(0, 2), Op::Set(1, 3)];
+        let shapes = [Op::Set(0, 2), Op::Set(1, 3), Op::Set(6, 0)];
         wide.extend(shapes);
         for w in words_upto(&wide, p.depth - 1) {
             if w.iter().any(|o| shapes.contains(o)) {
@@ -901,7 +901,8 @@ fn run_crash(cx: &mut Ctx, cfg: Cfg, word: &[Op], power: bool, byte_granular: bo
                         if v.is_none() {
                             if let Some(post) = &rv.post {
                                 let want: Vec<Result<Option<Vec<u8>>, String>> = vec![Ok(Some(b"post-crash".to_vec())), Ok(None), Ok(None)];
-                                if *post != want {
+                                // (the fourth key, the 9000-byte one, is not touched by these writes)
+                                if post.len() < 3 || post[..3] != want[..] {
                                     v = Some(("writes-after-recovery-lost".into(), format!("after recovery: set(a, post-crash), del(b), restart -> reads {:?}, expected [post-crash, nil, nil]", post.iter().map(|x| match x { Ok(Some(v)) => hex(v), Ok(None) => "nil".into(), Err(e) => format!("ERR {}", e) }).collect::<Vec<_>>())));
                                 }
                             }
@@ -1356,7 +1357,7 @@ fn classify_fault(class: &str, word: &[Op], fault_op: Option<usize>, call: &Call
     let opn = match op {
         Some(Op::Merge) => "merge",
         Some(Op::Reopen) | Some(Op::ReopenAs(_)) => "reopen",
-        Some(Op::Set(_, 4)) | Some(Op::Set(_, 5)) => "big-set",
+        Some(Op::Set(_, 4)) | Some(Op::Set(_, 5)) | Some(Op::Set(6, _)) => "big-set",
         Some(Op::Set(..)) => "set",
         Some(Op::Del(_)) => "del",
         Some(Op::Fill(..)) | Some(Op::Drain(..)) => "bulk",
